@@ -152,6 +152,35 @@ Theorem C14_chunk_complete_read : forall pages size avail,
   read_pages true size avail 0 pages = (length pages, PEnd).
 Proof. intros. apply chunk_complete_read; auto. Qed.
 
+(** The same after a seek: SeekToRow then ReadPage to the end of the chunk,
+    with an offset index (the stream goes to the page of the row) and without
+    (SkipPageIndex or a file without page index: every page before the row is
+    read and dropped).  Wherever the source ends before the chunk does --
+    inside a page that is only skipped over, or later -- the sequence never
+    ends with a plain io.EOF; over a complete source exactly the pages from the
+    row on are returned. *)
+Theorem C14_seek_early_end_reported : forall noindex size avail dict skipped rest,
+  sumN dict + sumN skipped + sumN rest = size -> 0 < sumN rest -> avail < size ->
+  snd (seek_read_pages true noindex size avail dict skipped rest) = PUnexpected.
+Proof. exact seek_early_end_reported. Qed.
+Print Assumptions C14_seek_early_end_reported.
+
+Theorem C14_seek_complete_read : forall cur noindex size avail dict skipped rest,
+  sumN dict + sumN skipped + sumN rest = size -> size <= avail ->
+  (forall h b, In (h, b) (skipped ++ rest) -> 0 < h) ->
+  seek_read_pages cur noindex size avail dict skipped rest = (length rest, PEnd).
+Proof. exact seek_complete_read. Qed.
+Print Assumptions C14_seek_complete_read.
+
+(* source cut inside the body of the second skipped page: without offset index
+   the cut is met while skipping, with one when the stream is repositioned *)
+Example C14_ex_seek_cut_in_skipped_page :
+  seek_read_pages true true 45 22 [(2, 3)] [(3, 7); (3, 7)] [(3, 7); (3, 7)] = (0%nat, PUnexpected)
+  /\ seek_read_pages true false 45 22 [(2, 3)] [(3, 7); (3, 7)] [(3, 7); (3, 7)] = (0%nat, PUnexpected)
+  /\ seek_read_pages true true 45 36 [(2, 3)] [(3, 7); (3, 7)] [(3, 7); (3, 7)] = (1%nat, PUnexpected)
+  /\ seek_read_pages true true 45 45 [(2, 3)] [(3, 7); (3, 7)] [(3, 7); (3, 7)] = (2%nat, PEnd).
+Proof. vm_compute. repeat split. Qed.
+
 Print Assumptions C14_readat_never_masks.
 Print Assumptions C14_file_readat_never_masks.
 Print Assumptions C14_prefix_rejected.
